@@ -446,7 +446,7 @@ func TestCheck(t *testing.T) {
 		"the resolver reads the package clock only on the goroutine that called Resolve (clock reads from other goroutines are counted and make the run inconclusive)",
 		"the age of an answer counts from the moment the upstream response was produced (virtual clock at that moment)",
 		"the smallest TTL of an answer is taken over EVERY record of the response: the CNAME records of the chain and records owned by unrelated names included",
-		"a response with CNAME / unrelated records but no record of the asked type is treated like an empty answer (const strictNoData in seq_test.go; the literal reading is violated by the resolver, which keeps such answers 300 s)",
+		"a response with CNAME / unrelated records but no record of the asked type is judged by the smallest TTL of the records it carries (const strictNoData = true in seq_test.go); only a response without any record may be kept for up to 300 s",
 		"an EMPTY answer has no TTL of its own: it may be served from cache for up to 300 s or be asked again (statement silent); after 300 s it must be asked again",
 		"with a cache smaller than the working set (SetCacheSize 1..4) a lookup within the TTL may go upstream again; SetCacheSize(0) disables caching, as documented",
 		"conc: 'all interleavings' = the schedules the Go runtime produced; overlap is forced with held upstream queries and counted; mixed {0,k} TTL sets are judged in seq only (conc uses all-zero or all-positive sets so that a known TTL defect does not mask ordering defects)",
